@@ -7,17 +7,6 @@ Import ListNotations.
 Definition c02s_sanitize : cue_error -> cue_error := sanitize.
 Definition c02s_printed : cue_error -> list err := printed.
 
-(* decidable versions of the side conditions (reflection lemmas:
-   SanitizeProofs.pos_coherentb_spec, rec_coherentb_spec) *)
-Definition pos_coherentb (es : list err) : bool :=
-  forallb (fun x => forallb (fun y =>
-    match cmp_npf (e_pos x) (e_pos y) with
-    | Eq => pos_eqb (e_pos x) (e_pos y)
-    | _ => true
-    end) es) es.
-Definition rec_coherentb (es : list err) : bool :=
-  forallb (fun x => forallb (fun y =>
-    if same_pp x y && msg_eqb x y then N.eqb (e_aux x) (e_aux y) else true) es) es.
 Definition c02s_coherent (es : list err) : bool * bool := (pos_coherentb es, rec_coherentb es).
 
 Definition c02s_topo (nodes : list label) (edges : list (label * label)) : option (list label) :=
